@@ -403,6 +403,7 @@ META_EXTRA = "SLOTS-W / SLOTS-U (grown characters written; range writes below th
 META = (META[0] + " " + META_EXTRA, META[1])
 META = (META[0] + ' SIB; IT4i (index-form downward scans reach index 0); RESUME (pattern searches move their candidate by one); CLAMP by viewed object.', META[1])
 META = (META[0] + ' CLAMP direction; ERASECNT.', META[1])
+META = (META[0] + ' ROTINS; BOUND over the const members; RWINDOW.', META[1])
 
 
 def run(chk, tier):
@@ -412,6 +413,7 @@ def run(chk, tier):
     from ..rules import iters as _ITX
     _ITX.reverse_index_area(chk, db, ['_string/basic_inplace_string', '_strings/'])      # IT4i: downward index scans reach index 0
     _ITX.resume_area(chk, db, ['_string/basic_inplace_string', '_strings/find', '_strings/rfind'])      # RESUME: pattern searches try every candidate position
+    _ITX.index_loop_area(chk, db, ['_string/basic_inplace_string'])      # IDXLOOP: index loops over the own elements stop before size()
     from ..rules import sibs as _SB
     _SB.check(chk, db, ['_string/basic_inplace_string', '_strings/find', '_strings/rfind'])      # SIB: cv/ref-qualified overloads of one member agree
     _SB.positive_control(chk)
